@@ -2,6 +2,7 @@ package main
 
 import (
 	"fmt"
+	"go/constant"
 	"go/token"
 	"go/types"
 	"sort"
@@ -357,9 +358,9 @@ func wireMatch(w *World, wc *wireCtx, r *Report) {
 	seenD, seenS, usesAllD, usesAllS := false, false, false, false
 	for _, pf := range pairFns {
 		forEachInstr(pf, func(b *ssa.BasicBlock, ins ssa.Instruction) {
-			if bo, ok := ins.(*ssa.BinOp); ok && bo.Op == token.EQL {
+			if bo, ok := ins.(*ssa.BinOp); ok && (bo.Op == token.EQL || bo.Op == token.NEQ) && k64(bo) {
 				for _, side := range []ssa.Value{bo.X, bo.Y} {
-					if k, ok := side.(*ssa.Const); ok && k.Value != nil {
+					if k, ok := side.(*ssa.Const); ok && k.Value != nil && k.Value.Kind() == constant.Int {
 						if k.Int64() == digits {
 							seenD = true
 						}
@@ -787,4 +788,14 @@ func wireLuaSizes(wc *wireCtx, r *Report) {
 	if n < 5 {
 		r.fail(rule, "size-bearing Lua cells found", "", fmt.Sprintf("expected >= 5 Lua cells that take a size from a source, found %d", n))
 	}
+}
+
+// k64: one operand is an integer constant (guards Const.Int64 against string constants).
+func k64(bo *ssa.BinOp) bool {
+	for _, side := range []ssa.Value{bo.X, bo.Y} {
+		if k, ok := side.(*ssa.Const); ok && k.Value != nil && k.Value.Kind() == constant.Int {
+			return true
+		}
+	}
+	return false
 }
